@@ -478,6 +478,27 @@ def check_C08(A: Analysis, tier):
         if op.kind == "unknown" and not op.anomalies:
             rd.fail(op.func, op.node, "block under a condition's mutex matches none of the claim shapes", A.p.loc(op.func, op.node))
     rules += [rd, re_, rf]
+    rh8 = Rule("C08", "C08.h", "no call asks for the advisory file lock of a reference file while it is itself still holding one on the same file through "
+               "another open handle: flock locks belong to the open file description, so the second request waits for the call's own first handle - forever", floor=2)
+    seen_h = set()
+    for it in A.all_api_runs():
+        for ev in it.events:
+            if ev.kind != "FLOCK":
+                continue
+            rh8.ob()
+            k = (ev.func.qual, ev.line)
+            if k not in seen_h:
+                seen_h.add(k)
+                rh8.inst(f"{ev.func.qual}:{ev.line} flock")
+            mine = {h for h in ev.paths[0] if tag(h) == "handle"}
+            held = [d[1] for d in ev.done if isinstance(d, tuple) and len(d) == 2 and d[0] == "flocked" and d[1] not in mine
+                    and any(d[1][1] == h[1] for h in mine)]
+            if held and (k, "f") not in seen_h:
+                seen_h.add((k, "f"))
+                rh8.fail(site_func(ev), site_text(ev), "fcntl.flock is requested on a reference file that this same call has already locked through another handle that "
+                         f"is still open (opened {show(held[0])[:60]}): the request can never be granted - the call hangs with every claim it holds",
+                         site_loc(A, ev), {"entry": it.entry})
+    rules.append(rh8)
     rg8 = Rule("C08", "C08.g", "no path of a public call reads a local variable that nothing on that path has bound, or that only some of the "
                "paths joined before the read have bound (a loop body that may not run, a handler that falls through): the UnboundLocalError "
                "aborts the call in the middle of its clean-up / release sequence", floor=9)
